@@ -275,7 +275,7 @@ Qed.
 Lemma plain_cons : forall c l, forallb plainb (c :: l) = true -> (c =? 10) = false /\ (c =? 13) = false /\ forallb plainb l = true.
 Proof.
   intros c l H. cbn [forallb] in H. apply andb_true_iff in H. destruct H as [H1 H2].
-  unfold plainb in H1. repeat split; try lia. exact H2.
+  unfold plainb in H1. split; [lia|split; [lia|exact H2]].
 Qed.
 
 Lemma split_raw_line : forall l rest, forallb plainb l = true ->
@@ -325,15 +325,15 @@ Qed.
 (** * the loop: the parser's state machine run on the events' meanings = the expected history *)
 
 Lemma fold_pstep_expected : forall es s,
-  let r := fold_left pstep (map event_kind es) s in
-  let x := expected_from es (ps_next s) (ps_map s) in
-  ps_rev r = rev (fst x) ++ ps_rev s /\ ps_map r = snd x.
+  ps_rev (fold_left pstep (map event_kind es) s) =
+    rev (fst (expected_from es (ps_next s) (ps_map s))) ++ ps_rev s /\
+  ps_map (fold_left pstep (map event_kind es) s) = snd (expected_from es (ps_next s) (ps_map s)).
 Proof.
   induction es as [|e es IH]; intros s.
-  - cbn. split; reflexivity.
-  - cbn [map fold_left expected_from].
-    destruct e as [t r i v]. unfold event_kind at 1. cbn [e_type e_res e_id e_val].
-    destruct r, t; cbn [pstep].
+  - cbn [map fold_left expected_from fst snd rev app]. split; reflexivity.
+  - destruct e as [t r i v].
+    cbn [map fold_left].
+    destruct r, t; cbn [event_kind pstep expected_from e_type e_res e_id e_val].
     + (* invoke read *)
       specialize (IH (p_call s i Read)). cbn [p_call ps_next ps_map ps_rev] in IH.
       destruct (expected_from es (ps_next s + 1) (pm_set (ps_map s) i (ps_next s))) as [h m].
